@@ -200,7 +200,7 @@ class ProgGen(object):
     def retract(self):
         if self.f.get("fw", False):
             p = self.f.get("fwparam", "")
-            self.emit("G10" + (" " + p if p else ""))
+            self.emit("G10" + ((("" if self.f.get("fwnospace") else " ") + p) if p else ""))
             self.fwret = True
         else:
             amt = self.f.get("ramt", 3.048)
@@ -212,7 +212,7 @@ class ProgGen(object):
     def unretract(self):
         if self.fwret:
             p = self.f.get("fwparam", "")
-            self.emit("G11" + (" " + p if p else ""))
+            self.emit("G11" + ((("" if self.f.get("fwnospace") else " ") + p) if p else ""))
             self.fwret = False
         else:
             if self.erel() or self.pre[2] or self.pre[3] != self.unit:
